@@ -7,6 +7,7 @@ PID = 'C14'
 TARGETS = ['Properties/C14.vo', 'Bridge/DataBridge.vo', 'Bridge/MoveBridge.vo', 'Bridge/IntBridge.vo', 'Bridge/CodegenBridge.vo', 'Bridge/PlumbingBridge.vo', 'Bridge/ErrorsBridge.vo', 'Bridge/RefBridge.vo']
 KERNELS = ['G8_data', 'G3_move', 'G4_seq', 'G6_int', 'G11_codegen', 'G17_builder', 'G9_errors', 'G16_ref', 'G16b_optional']
 PROP_FILE = 'Properties/C14.v'
+WHOLE_PACKET = True      # Tie A over all of the pack / unpack machinery (check.py: WHOLE_PACKET_KERNELS)
 
 
 def forward_only(table):
